@@ -53,12 +53,17 @@ def build_harness():
     return VH
 
 
-def run_vh(args, timeout=3600, env=None, stdout=None, cwd=None):
+def run_vh(args, timeout=3600, env=None, stdout=None, cwd=None, mem_gb=None):
     e = dict(os.environ)
     if env:
         e.update(env)
+
+    def limit():
+        if mem_gb:
+            import resource
+            resource.setrlimit(resource.RLIMIT_AS, (mem_gb << 30, mem_gb << 30))
     try:
-        p = subprocess.run([VH] + [str(a) for a in args], env=e, timeout=timeout, cwd=cwd,
+        p = subprocess.run([VH] + [str(a) for a in args], env=e, timeout=timeout, cwd=cwd, preexec_fn=limit,
                            stdout=stdout or subprocess.PIPE, stderr=subprocess.PIPE, text=True)
     except subprocess.TimeoutExpired:
         raise ToolError("harness timed out: %s" % " ".join(map(str, args)))
